@@ -207,6 +207,8 @@ def gen_struct(k, rnd, path):
              (sname, " ".join('f("%s", t.%s, g.%s);' % (p, p, p) for p in paths)))
     o.append("  template<typename Cfg, typename F> static void for_leaf_pairs(tainted<%s, Sbx>& a, tainted<%s, Sbx>& b, F&& f) { %s }" %
              (sname, sname, " ".join('f("%s", a.%s, b.%s);' % (p, p, p) for p in paths)))
+    o.append("  template<typename F> static void for_plain_pairs(const %s& a, const %s& b, F&& f) { %s }" %
+             (sname, sname, " ".join('f("%s", a.%s, b.%s);' % (p, p, p) for p in paths)))
     o.append("  template<typename Cfg, typename F> static void for_leaf_addresses(tainted_volatile<%s, Sbx>& v, F&& f) { %s }" %
              (sname, " ".join('f("%s", reinterpret_cast<uintptr_t>(std::addressof(v.%s)));' % (p, p) for p in paths)))
     o.append("  template<typename Cfg> static const Layout& layout() {")
